@@ -173,10 +173,32 @@ static void check(const Case &cc) {
     if (N >= 4) COUNT("allocations>=4");
     if (N >= 8) COUNT("allocations>=8");
     if (base.code != E_SUCCESS) COUNT("error_path_input");
+    if ((c.fn == DISK || c.fn == DISKDIST || c.fn == NEIGHBOR) && (!ref::valid_cell(c.h) || (c.fn == NEIGHBOR && !ref::valid_cell(c.q)))) COUNT("error_path.invalid_cell_argument");
     if (base.code == E_MEMORY_BOUNDS) COUNT("error_path.E_MEMORY_BOUNDS(capacity too small)");
     if (c.fn == COMPACT && base.code == E_SUCCESS) { bool toBase = false; for (uint64_t x : base.out) if (x && ref::res_of(x) == 0) toBase = true; if (toBase) COUNT("compact.reaches_resolution_0"); }
     static Counter faults("fault_points_enumerated");
     faults.n += (uint64_t)(2 * N);
+}
+
+// make a valid cell invalid in one of the ways the traversal code has to survive: base cell >= 122, digit 7 inside the resolution,
+// deleted sub-sequence under a pentagon, wrong mode, high bit, a non-7 digit behind the resolution
+static uint64_t spoil(uint64_t h) {
+    int res = ref::res_of(h);
+    switch (rpick({2, 3, 3, 1, 1, 1})) {
+        case 0: return (h & ~(127ULL << 45)) | ((uint64_t)ri(122, 127) << 45);
+        case 1: { if (!res) return h | (1ULL << 63); int pos = ri(1, res); return h | (7ULL << (3 * (15 - pos))); }
+        case 2: {  // pentagon base cell, leading non-zero digit 1
+            if (!res) return (h & ~(127ULL << 45)) | (127ULL << 45);
+            uint64_t p = gen::pentagonAt(res, ri(0, 11));
+            int pos = ri(1, res);
+            p |= 1ULL << (3 * (15 - pos));
+            for (int r = pos + 1; r <= res; r++) p |= (uint64_t)ri(0, 6) << (3 * (15 - r));
+            return p;
+        }
+        case 3: return (h & ~(15ULL << 59)) | ((uint64_t)ri(2, 15) << 59);
+        case 4: return h | (1ULL << 63);
+        default: { if (res == 15) return h ^ (1ULL << 56); int pos = ri(res + 1, 15); return h & ~((uint64_t)ri(1, 7) << (3 * (15 - pos))); }
+    }
 }
 
 static Case draw() {
@@ -227,6 +249,7 @@ static Case draw() {
         case DISK: case DISKDIST: {
             c.h = rpick({3, 1}) == 0 ? gen::cellPentDisk(c.res, 3) : gen::cellRes(c.res).h;
             c.k = ri(0, 6);
+            if (rpick({5, 1}) == 1) c.h = spoil(c.h);  // error path: an origin that is not a valid cell
             break;
         }
         case NEIGHBOR: {
@@ -236,6 +259,7 @@ static Case draw() {
             c.q = d[ri(0, 18)];
             if (!c.q) c.q = c.h;
             if (rpick({8, 1}) == 1) c.q = gen::cell(0, 15).h;  // error path: other resolution
+            if (rpick({8, 1}) == 1) { if (rbool()) c.h = spoil(c.h); else c.q = spoil(c.q); }  // error path: invalid cell
             break;
         }
         default: {
@@ -269,6 +293,12 @@ static void enumerate(const std::string &tier, int shard, int nshards, const std
                 for (int k = 1; k <= (tier == "thorough" ? 5 : 3); k++) { c.fn = DISK; c.k = k; emit(c); c.fn = DISKDIST; emit(c); }
                 c.fn = NEIGHBOR;
                 for (H3Index q : d) if (q) { c.q = q; emit(c); }
+                // error paths: the same origin made invalid in three ways (digit 7, deleted sub-sequence / base cell 127, high bit)
+                if (r >= 1) {
+                    uint64_t bad[3] = {h | (7ULL << (3 * (15 - r))), (ref::is_pent_bc(ref::unpack(h).bc) && ref::is_pentagon(h)) ? (h | (1ULL << (3 * (15 - r)))) : ((h & ~(127ULL << 45)) | (127ULL << 45)), h | (1ULL << 63)};
+                    for (uint64_t b : bad) { c.h = b; c.fn = DISK; c.k = 1; emit(c); c.k = 2; emit(c); c.fn = DISKDIST; emit(c); c.fn = NEIGHBOR; c.q = h; emit(c); }
+                    c.h = h;
+                }
             }
             if (r >= 1) {
                 H3Index par = ref::parent(p[i], r - 1);
